@@ -126,6 +126,9 @@ def gen_case(rng, tier, index):
                                                             "substenv", "checkoutscript", "import", "weak", "nobuild",
                                                             "inhtools", "inhtools", "sandbox", "ifdeps"], rng.randint(2, 7)))
     model = projgen.gen_valid_project(rng, nmin=4, nmax=8, features=feats)
+    if index % 4 == 1:
+        # a recipe that hands a tool on under another name, reached under two providers of that tool
+        projgen.add_tool_remap(rng, model)
     steps = [{"defines": {}}]
     hist = [model]
     cur = model
